@@ -26,8 +26,8 @@ pub fn enc(s: &str) -> String {
 }
 pub fn plain(s: &str) -> String { console::strip_ansi_codes(s).to_string() }
 
-/// the nearest character boundary at or before byte offset `at`
-pub fn boundary(s: &str, mut at: usize) -> usize { while !s.is_char_boundary(at) { at -= 1; } at }
+/// the nearest character boundary at or before byte offset `at` that does not separate a combining mark from its base
+pub fn boundary(s: &str, mut at: usize) -> usize { while !s.is_char_boundary(at) || s[at..].starts_with('\u{301}') { at -= 1; } at }
 
 fn text(rng: &mut Rng, w: u16, multiline: bool) -> String {
     let w = w as u64;
@@ -35,7 +35,16 @@ fn text(rng: &mut Rng, w: u16, multiline: bool) -> String {
     let len = match rng.below(12) { 0 => 0, 1 => 1, 2 => w.saturating_sub(1), 3 => w, 4 => w + 1, 5 => 2 * w, 6 => 2 * w + 1, 10 => 3 * w, 11 => 7 * w, _ => rng.below(2 * w + 3) };
     let mut s: String = (0..len).map(|_| (b'a' + rng.below(26) as u8) as char).collect();
     // double-width characters (two columns each): never on a one-column terminal, which cannot show them
-    if w >= 2 && rng.chance(1, 6) { s = s.chars().map(|c| if rng.chance(1, 3) { *rng.pick(&['日', '本', '語']) } else { c }).collect(); }
+    if w >= 2 && rng.chance(1, 6) {
+        s = s.chars().map(|c| if rng.chance(1, 3) { *rng.pick(&['日', '本', '語']) } else { c }).collect();
+        // sometimes as many zero-width combining marks as double-width characters (the string then has as many characters as columns)
+        if rng.chance(1, 2) {
+            let wide = s.chars().filter(|c| !c.is_ascii()).count();
+            let mut out = String::new(); let mut left = wide;
+            for c in s.chars() { out.push(c); if left > 0 && c.is_ascii_alphabetic() { out.push('\u{301}'); left -= 1; } }
+            s = out;
+        }
+    }
     if multiline && rng.chance(1, 4) {
         let k = rng.below(3) + 1;
         for _ in 0..k { let at = boundary(&s, rng.below(s.len() as u64 + 1) as usize); s.insert(at, '\n'); }
@@ -139,7 +148,7 @@ pub fn straddles(line: &str, w: usize) -> bool {
     wrap(line, w).len() > std::cmp::max(1, (cols + w - 1) / w)
 }
 
-fn show_rows(rows: &[String]) -> String { rows.iter().map(|r| r.chars().map(|c| (c as u32).to_string()).collect::<Vec<_>>().join(".")).collect::<Vec<_>>().join("|") }
+fn show_rows(rows: &[String]) -> String { rows.iter().map(|r| r.chars().filter(|c| unicode_width::UnicodeWidthChar::width(*c).unwrap_or(0) > 0).map(|c| (c as u32).to_string()).collect::<Vec<_>>().join(".")).collect::<Vec<_>>().join("|") }
 
 /// runs the case on the real crate; returns (observation, oracle verdict)
 /// runs the case on the real crate; returns (observation, oracle verdict, the operations as the model sees them)
